@@ -448,6 +448,23 @@ fn judge_divergence(ex: &mut Exec, mut rep: StepReport, d: String, finish: impl 
         finish(ex, &mut rep);
         return rep;
     }
+    // listed C11 finding, downstream effect at SQL level (the one the property text itself describes): a divider that
+    // aliases the overflow chain of a leaf cell keeps pointing at the chain after an UPDATE / DELETE released it; once
+    // the pages are reused (a new table's root, another row's chain) a descent that compares through the divider reads
+    // a page of the wrong kind. Only histories that hold a multi-page row and have already released a chain qualify.
+    let alias = "KT-separator-aliases-overflow-chain";
+    if (d.contains("Expected overflow frame") || d.contains("Expected btreepage frame")) && ex.model.enabled_hazards.contains(alias) {
+        let big_row = ex.log.iter().any(|l| l.contains("(x9000)") || l.contains("(x20000)") || l.contains("(x6000)"));
+        let released = ex.log.iter().any(|l| l.contains("UPDATE ") || l.contains("DELETE ") || l.contains("DROP TABLE"));
+        if big_row && released {
+            rep.status = "known".into();
+            rep.findings = vec![alias.to_string()];
+            rep.detail = format!("{d}\n{}", ex.log.join("\n"));
+            rep.stop = true;
+            finish(ex, &mut rep);
+            return rep;
+        }
+    }
     // listed C05 finding: one log record carries the whole stored tuple before and after, and cannot exceed a log block
     let big = "KT-log-record-exceeds-block";
     if d.contains("exceeds maximum block capacity") && ex.model.enabled_hazards.contains(big) {
